@@ -235,7 +235,9 @@ func vfC22Episode(rec *evid.Rec, ep int) int {
 	fs := refs.New()
 	fs.PlantFile("/f", nil, 0666, 0, 0)
 	fs.PlantFile("/g", nil, 0666, 0, 0)
-	srv, err := vfNewSrv(fs, ExportOptions{AttrCacheTimeout: 1})
+	// every other episode on an export with the Async option set: whatever it makes the server do
+	// with unstable writes, a reply that says FILE_SYNC/DATA_SYNC and a successful COMMIT mean durable
+	srv, err := vfNewSrv(fs, ExportOptions{AttrCacheTimeout: 1, Async: ep%2 == 1})
 	if err != nil {
 		rec.Infra(err.Error())
 		return 0
